@@ -1,4 +1,6 @@
+mod hist;
 mod instr;
+mod ops;
 mod props;
 mod refmath;
 mod run;
@@ -12,6 +14,10 @@ use std::path::Path;
 fn with_prop(id: &str, f: &mut dyn FnMut(&dyn Runner) -> i32) -> i32 {
     match id {
         "C01" => f(&props::c01::C01),
+        "C02" => f(&props::c02::prop()),
+        "C03" => f(&props::c03::prop()),
+        "C08" => f(&props::c08::prop()),
+        "C10" => f(&props::c10::prop()),
         "C17" => f(&props::c17::C17),
         "C19" => f(&props::c19::C19),
         _ => {
